@@ -47,6 +47,10 @@ DefaultComponentDataStorage::DefaultComponentDataStorage(const ComponentIdMask& 
         });
 
         chunk_size_ = offset.alignAs(chunk_align_).toInt();
+        if (chunk_size_ == 0u) {
+            // only zero-sized components: a chunk still needs an address its (empty) columns can point at
+            chunk_size_ = chunk_align_;
+        }
     }
     Logger{}.debug("New ComponentDataStorage has been created, components: %s | chunk capacity: %d",
                   mask.toString().c_str(), chunkCapacity().toInt());
